@@ -206,8 +206,11 @@ func handleConn(conn net.Conn, conf *Config) error {
 	leptondController.SetAutoFFC(true)
 	totalFrames := 0
 	reader := bufio.NewReader(conn)
-	var err error
-	headerInfo, err = headers.ReadHeaderInfo(reader)
+	newHeaderInfo, err := headers.ReadHeaderInfo(reader)
+	// headerInfo and processor are read by the D-Bus service goroutines.
+	mu.Lock()
+	headerInfo = newHeaderInfo
+	mu.Unlock()
 	if err != nil {
 		return err
 	}
@@ -238,7 +241,7 @@ func handleConn(conn net.Conn, conf *Config) error {
 		constantRecorder.SetAsConstantRecorder()
 	}
 
-	processor = motion.NewMotionProcessor(
+	newProcessor := motion.NewMotionProcessor(
 		parseFrame,
 		&conf.Motion,
 		&conf.Recorder,
@@ -249,6 +252,9 @@ func handleConn(conn net.Conn, conf *Config) error {
 		constantRecorder,
 		NewCPTVFileRecorder(conf, headerInfo, headerInfo.Brand(), headerInfo.Model(), headerInfo.CameraSerial(), headerInfo.Firmware()),
 	)
+	mu.Lock()
+	processor = newProcessor
+	mu.Unlock()
 
 	verifPoint("conn.processor")
 	log.Print("reading frames")
